@@ -279,7 +279,7 @@ fn validate_nodata_response(
     // 4. Name is serviced by wildcard that has a record of this type
     // 5. Name is serviced by wildcard that doesn't have a record of this type
 
-    let (hashed_query_name, base32_hashed_query_name) = cx.hash_and_label(&cx.query.name);
+    let (_, base32_hashed_query_name) = cx.hash_and_label(&cx.query.name);
     let query_name_record = cx
         .nsec3s
         .iter()
@@ -393,11 +393,19 @@ fn validate_nodata_response(
     // *Note*: the case of an opt-out NSEC3 record having the same original owner
     // name as the hashed query name and not having the DS bit set in the type flags
     // is covered here by case 2.
-    if query_type == RecordType::DS
-        && find_covering_record(cx.nsec3s, &hashed_query_name, &base32_hashed_query_name)
-            .is_some_and(|x| x.nsec3_data.opt_out())
-    {
-        return cx.proof(Proof::Secure, "DS query covered by opt-out proof");
+    //
+    // RFC 5155 8.6 (quoted above) requires a closest provable encloser proof for this, where the
+    // record covering the next closer name has the Opt-Out bit set.
+    if query_type == RecordType::DS && wildcard_encloser_num_labels.is_none() {
+        let ClosestEncloserProofInfo {
+            closest_encloser,
+            next_closer,
+        } = cx.closest_encloser_proof();
+        if closest_encloser.is_some()
+            && next_closer.is_some_and(|(_, record)| record.nsec3_data.opt_out())
+        {
+            return cx.proof(Proof::Secure, "DS query covered by opt-out proof");
+        }
     }
 
     let (proof, reason) = match wildcard_encloser_num_labels {
